@@ -226,6 +226,9 @@ def build(params):
             LINE_ORDER[0] = 2
             FP = M["FP"]
             e = stubs.env()
+            # an earlier call on another graph (no links at all) must leave nothing behind
+            e.files["g0.gfa"] = stubs.MFile("text", gfa_lines("abc", []), None)
+            FP.run("g0.gfa", ">a>b", output="o0.txt", fasta=False)
             e.files["g.gfa"] = stubs.MFile("text", gfa_lines("abc", LINKS), None)
             p = pick(p0, MENU)
             fasta = bool(pick(fa, [0, 1]))
